@@ -1,62 +1,127 @@
 from excel2pycl.src.context import Context
 from excel2pycl.src.excel import Excel
-from excel2pycl.src.tokens import ExpressionToken, AmpersandToken, DateControlConstructionToken, \
-    TodayControlConstructionToken, EqOperatorToken, NotEqOperatorToken, GtOperatorToken, GtOrEqualOperatorToken, \
-    LtOperatorToken, LtOrEqualOperatorToken, PercentToken, OneLeftOperandExpressionToken
+from excel2pycl.src.exceptions import E2PyclParserException
+from excel2pycl.src.tokens import ExpressionToken, AmpersandToken, EqOperatorToken, NotEqOperatorToken, \
+    GtOperatorToken, GtOrEqualOperatorToken, LtOperatorToken, LtOrEqualOperatorToken, PercentToken, \
+    OneLeftOperandExpressionToken, BracketStartToken, OneOperandArithmeticOperatorToken, PlusOperatorToken, \
+    MinusOperatorToken, PercentRunToken
 from excel2pycl.src.translators.abstract_translator import AbstractTranslator
 
 
 class ExpressionTokenTranslator(AbstractTranslator):
-    _DATE_TOKENS = [DateControlConstructionToken, TodayControlConstructionToken]
+    _COMPARE_TOKENS = (EqOperatorToken, NotEqOperatorToken, GtOperatorToken, GtOrEqualOperatorToken,
+                       LtOperatorToken, LtOrEqualOperatorToken)
+    _SIGN_TOKENS = (PlusOperatorToken, MinusOperatorToken)
+    # the operand of a sign: tighter than every binary operator
+    _SIGN_PRECEDENCE = 5
+    _PERCENT = object()
 
     @classmethod
     def translate(cls, token: ExpressionToken | OneLeftOperandExpressionToken, excel: Excel, context: Context) -> str:
+        """
+        The grammar is right-recursive (operand, operator, rest of the formula), so the token tree says nothing
+        about precedence: the expression is flattened into operands and operators first and then grouped the way
+        Excel does it - %, sign, * /, + -, &, comparisons, equal levels from left to right.
+        """
+        items = cls._flatten(token, excel, context)
+        code, position = cls._group(items, 0, 0)
+        if position != len(items):
+            raise E2PyclParserException(f'The expression in the cell {token.in_cell} has an incorrect structure')
+
+        return code
+
+    @classmethod
+    def _flatten(cls, token: ExpressionToken | OneLeftOperandExpressionToken, excel: Excel, context: Context) -> list:
+        """
+        Operand codes (str), operator tokens and cls._PERCENT marks of one bracket level, from left to right.
+        """
         from excel2pycl.src.translators.operand_token_translator import OperandTokenTranslator
+
+        value = token.value
+        first = value[0]
+
+        if isinstance(token, OneLeftOperandExpressionToken):
+            items = [str(OperandTokenTranslator.translate(first, excel, context)), cls._PERCENT]
+            return items + cls._flatten(value[2], excel, context) if len(value) == 3 else items
+
+        if first.__class__ is OneOperandArithmeticOperatorToken:
+            return [first.operator] + cls._flatten(value[1], excel, context)
+
+        if first.__class__ is BracketStartToken:
+            items, rest = ['(' + cls.translate(value[1], excel, context) + ')'], value[3:]
+        elif first.__class__ is OneLeftOperandExpressionToken:
+            items, rest = cls._flatten(first, excel, context), value[1:]
+        else:
+            items, rest = [str(OperandTokenTranslator.translate(first, excel, context))], value[1:]
+
+        if rest and rest[0].__class__ is PercentRunToken:
+            items, rest = items + [cls._PERCENT] * rest[0].length, rest[1:]
+
+        if rest:
+            operator = rest[0].operator
+            items.append(cls._PERCENT if operator.__class__ is PercentToken else operator)
+            items += cls._flatten(rest[1], excel, context)
+
+        return items
+
+    @classmethod
+    def _precedence(cls, operator) -> int:
+        if isinstance(operator, cls._COMPARE_TOKENS):
+            return 1
+        if operator.__class__ is AmpersandToken:
+            return 2
+        if isinstance(operator, cls._SIGN_TOKENS):
+            return 3
+        return 4
+
+    @classmethod
+    def _group(cls, items: list, position: int, min_precedence: int) -> (str, int):
+        """
+        Precedence climbing over the flat list. Returns the code of the longest expression that starts at the
+        position and contains only binary operators of at least the given precedence, and the position after it.
+        """
         from excel2pycl.src.translators.operator_sub_token_translator import OperatorSubTokenTranslator
 
-        operator, left_operand, left_brackets, right_brackets, right_operand = token.operator, token.left_operand, \
-            None, None, None
+        if position >= len(items):
+            raise E2PyclParserException('An operand is missing in the expression')
 
-        if isinstance(token, ExpressionToken):
-            left_brackets, right_brackets, right_operand = token.left_brackets, token.right_brackets, \
-                  token.right_operand
+        item = items[position]
+        if isinstance(item, cls._SIGN_TOKENS):
+            # a sign applies to the next operand only: -2+3 is (-2)+3
+            operand, position = cls._group(items, position + 1, cls._SIGN_PRECEDENCE)
+            left = f'({item.value[0]}{operand})'
+        elif isinstance(item, str):
+            left, position = item, position + 1
+        else:
+            raise E2PyclParserException('An operand is missing in the expression')
 
-        if left_operand:
-            token_translator = ExpressionTokenTranslator if \
-                left_operand.__class__ in [ExpressionToken, OneLeftOperandExpressionToken] \
-                else OperandTokenTranslator
+        percent = False
+        while position < len(items) and items[position] is cls._PERCENT:
+            left, position, percent = f'self._normalize_float_number({left} / 100)', position + 1, True
 
-            left_operand = token_translator.translate(left_operand, excel, context)
-            left_operand = f'({left_operand})' if left_brackets else left_operand
+        while position < len(items):
+            operator = items[position]
+            if isinstance(operator, str) or operator is cls._PERCENT:
+                # 1%2, 5%5%: two operands without an operator between them
+                raise E2PyclParserException('An operator is missing between two operands')
 
-        if right_operand:
-            token_translator = ExpressionTokenTranslator \
-                if right_operand.__class__ is ExpressionToken else OperandTokenTranslator
+            precedence = cls._precedence(operator)
+            if precedence < min_precedence:
+                break
 
-            right_operand = token_translator.translate(right_operand, excel, context)
-            right_operand = f'({right_operand})' if right_brackets else right_operand
+            right, position = cls._group(items, position + 1, precedence + 1)
 
-        if operator:
-            if operator.__class__ is AmpersandToken:
-                left_operand = f'str({left_operand})'
-                right_operand = f'str({right_operand})'
-
-            # попытка заставить сравнение работать так, как надо
-            compare_tokens = (EqOperatorToken, NotEqOperatorToken, GtOperatorToken, GtOrEqualOperatorToken,
-                              LtOperatorToken, LtOrEqualOperatorToken)
-
-            if isinstance(operator, compare_tokens) and left_operand and right_operand:
-                operator = OperatorSubTokenTranslator.translate(operator, excel, context)
-                return f'self._compare("{operator}", {left_operand}, {right_operand})'
-
-            if operator.__class__ is PercentToken:
-                left_operand = f'self._normalize_float_number({left_operand} / 100)'
-                operator = None
+            if isinstance(operator, cls._COMPARE_TOKENS):
+                # попытка заставить сравнение работать так, как надо
+                operator = OperatorSubTokenTranslator.translate(operator, excel=None, context=None)
+                left = f'self._compare("{operator}", {left}, {right})'
+            elif operator.__class__ is AmpersandToken:
+                left = f'(str({left})+str({right}))'
             else:
-                operator = OperatorSubTokenTranslator.translate(operator, excel, context)
+                operator = OperatorSubTokenTranslator.translate(operator, excel=None, context=None)
+                left = f'({left}{operator}{right})'
+                if percent:
+                    left = f'self._normalize_float_number{left}'
+            percent = False
 
-            if isinstance(token.left_operand, OneLeftOperandExpressionToken) and \
-                    isinstance(token.left_operand.operator, PercentToken):
-                return f"self._normalize_float_number({left_operand or ''}{operator or ''}{right_operand or ''})"
-
-        return f"{left_operand or ''}{operator or ''}{right_operand or ''}"
+        return left, position
